@@ -9,7 +9,7 @@ open Conv
 open GuardsCheck
 open Guards_conv
 
-let run (path : string) =
+let run_gen ~(xmode : bool) (path : string) =
   let lines = read_lines path in
   let cases = ref 0 and steps = ref 0 and nontrivial = ref 0 in
   let z = z_of_int in
@@ -18,6 +18,11 @@ let run (path : string) =
   let boundary_seen : (string, unit) Hashtbl.t = Hashtbl.create 64 in
   let focused = ref false in
   let no_amount : (string, unit) Hashtbl.t = Hashtbl.create 16 in
+  let base_ok_seen : (string, unit) Hashtbl.t = Hashtbl.create 64 in
+  let breaker_seen : (string, unit) Hashtbl.t = Hashtbl.create 64 in
+  let price_seen : (string, unit) Hashtbl.t = Hashtbl.create 64 in
+  let notes = ref 0 in
+  let mem_x n = L.exists (fun hn -> string_of_coq hn = n) x_matrix_handlers in
   L.iter (fun line ->
       match tokens line with
       | "case" :: id :: "c14" :: handler :: app :: breaker :: esm :: mask :: np :: cls :: kind :: changed :: base_cls :: same :: reads :: needed :: tag :: [] ->
@@ -32,6 +37,9 @@ let run (path : string) =
         let boundary = (tag <> "default") in
         Hashtbl.replace exercised handler ();
         if boundary && breaker then Hashtbl.replace boundary_seen handler ();
+        if base_ok then Hashtbl.replace base_ok_seen handler ();
+        if base_ok && breaker then Hashtbl.replace breaker_seen handler ();
+        if base_ok && mask <> 0 then Hashtbl.replace price_seen handler ();
         bump (Printf.sprintf "c14:%s:b%d:e%d:%s:%s:%s" (if boundary then "boundary-amount" else "default-amount") (if breaker then 1 else 0) esm
                 (if mask = 0 then "p-all" else if mask = full then "p-none" else if mask land reads <> 0 then "p-some-read" else "p-some-unread") cls kind);
         Hashtbl.replace distinct (Digest.string (Printf.sprintf "%s %b %d %d %s" handler breaker esm mask tag)) ();
@@ -44,12 +52,18 @@ let run (path : string) =
           let pred = kind_of_code (predict_full h (esm > 0) now end_ breaker (mask = 0)) in
           let is_ctrl k = (k = "esm" || k = "breaker" || k = "cooloff" || k = "control") in
           if is_ctrl pred then begin
-            (* the control check stands before everything that could depend on prices *)
-            if cls <> "err" || kind <> pred then
+            (* the control check stands before everything that could depend on prices.  The liquidation / auction
+               handlers of the extended matrix return unregistered errors (fmt.Errorf) for their control checks:
+               there the class alone is compared *)
+            if cls <> "err" || (kind <> pred && not (xmode && (kind = "other" || pred = "control"))) then
               mismatch ~case:id ~step:1 ~field:("control-class:" ^ handler) ~model:pred ~impl:(cls ^ ":" ^ kind)
           end else if pred = "unknown" then
             (* a writing call the translator does not enter reads the controls itself *)
             bump ("c14:model-cannot-tell:" ^ handler)
+          else if xmode && handler = "esm.ExecuteESM" && esm > 0 && cls = "err" && kind = "esm" then
+            (* the shutdown record the control state writes IS this handler's own precondition (`_, found := GetESMStatus;
+               if found { return ErrESMAlreadyExecuted }`, a GOther guard of the row): executing twice is refused *)
+            bump "c14:execute-esm-refused-when-already-executed"
           else if mask = 0 then begin
             if pred = "ok" && not ok then
               mismatch ~case:id ~step:1 ~field:("control-class:" ^ handler) ~model:"ok" ~impl:(cls ^ ":" ^ kind)
@@ -72,6 +86,7 @@ let run (path : string) =
             predfail ~case:id ~step:1 ~pred:"holds_C14_price" ~kf
               ~detail:(Printf.sprintf "%s_%s_inactive-mask=%d_prices-read-when-active=%d_inactive-and-needed=%d_cls=%s_all-active-cls=%s_same-outcome=%b" handler tag mask reads needed cls base_cls same)
       | "#" :: "no-amount-field" :: handler :: _ -> Hashtbl.replace no_amount handler ()
+      | "#" :: "fixture-note" :: _ -> incr notes
       | "case" :: id :: "sweep" :: name :: breaker :: div :: cls :: started :: [] ->
         incr cases; incr steps;
         let g = coq_of_string name in
@@ -89,10 +104,10 @@ let run (path : string) =
       | "#" :: "focus" :: _ -> focused := true
       | _ -> ()
     ) lines;
-  (* coverage: every handler of the breaker scope was run, and (when it has an amount field at all: the
-     harness says so) with boundary amounts under the breaker; price-scope handlers that the matrix does
-     not reach (liquidation / auction bids need a running V1 auction) are listed in the evidence *)
-  if Sys.getenv_opt "VERIF_CASE" = None && !cases > 100 && not !focused then begin
+  (* coverage (plain matrix): every handler of the breaker scope was run, and (when it has an amount field at all:
+     the harness says so) with boundary amounts under the breaker; a handler of the price scope that neither this
+     matrix nor the extended one (x_matrix_handlers) sends is a mismatch *)
+  if (not xmode) && Sys.getenv_opt "VERIF_CASE" = None && !cases > 100 && not !focused then begin
     L.iter (fun hn ->
         let n = string_of_coq hn in
         if not (Hashtbl.mem exercised n) then
@@ -102,8 +117,27 @@ let run (path : string) =
       breaker_scope;
     L.iter (fun hn ->
         let n = string_of_coq hn in
-        if not (Hashtbl.mem exercised n) then bump ("c14:price-scope-handler-not-in-matrix:" ^ n))
+        if (not (Hashtbl.mem exercised n)) && not (mem_x n) then
+          mismatch ~case:"-" ~step:0 ~field:("coverage:" ^ n) ~model:"price-scope-handler-in-some-matrix" ~impl:"in-no-matrix")
       price_scope_names
+  end;
+  (* coverage (extended matrix): every msgServer method of the liquidation / auction / esm / rewards / collector /
+     tokenmint modules (from the regenerated registry) was run where its uncontrolled run succeeds, under the breaker,
+     with inactive prices, and (when it has an amount field) with boundary amounts under the breaker *)
+  if xmode && Sys.getenv_opt "VERIF_CASE" = None && !cases > 100 && not !focused then begin
+    if !notes > 0 then
+      mismatch ~case:"-" ~step:0 ~field:"fixture" ~model:"extended-fixture-complete" ~impl:(Printf.sprintf "%d-notes-in-trace" !notes);
+    L.iter (fun hn ->
+        let n = string_of_coq hn in
+        if not (Hashtbl.mem exercised n) then
+          mismatch ~case:"-" ~step:0 ~field:("coverage:" ^ n) ~model:"msg-server-method-of-the-extended-matrix" ~impl:"not-exercised"
+        else if not (Hashtbl.mem base_ok_seen n) then
+          mismatch ~case:"-" ~step:0 ~field:("coverage-uncontrolled-ok:" ^ n) ~model:"uncontrolled-run-succeeds" ~impl:"never"
+        else if not (Hashtbl.mem breaker_seen n && Hashtbl.mem price_seen n) then
+          mismatch ~case:"-" ~step:0 ~field:("coverage-controls:" ^ n) ~model:"run-under-breaker-and-inactive-prices" ~impl:"never"
+        else if (not (Hashtbl.mem boundary_seen n)) && not (Hashtbl.mem no_amount n) then
+          mismatch ~case:"-" ~step:0 ~field:("coverage-boundary-amounts:" ^ n) ~model:"boundary-amounts-under-breaker" ~impl:"never")
+      x_matrix_handlers
   end;
   finish ~cases:!cases ~steps:!steps ~nontrivial:!nontrivial
 
@@ -111,5 +145,8 @@ let run (path : string) =
 let focus (_ : string) =
   L.iter (fun n -> print_endline ("FOCUS " ^ string_of_coq n)) c14_broken_rows
 
+let run = run_gen ~xmode:false
+let run_x = run_gen ~xmode:true
 let () = Conv.register "C14" run
+let () = Conv.register "C14X" run_x
 let () = Conv.register "C14-focus" focus
